@@ -203,6 +203,21 @@ def run_ops(ctx, prop, mc_name, body, cfgs, universe, maxlen, randoms, sig_fn, t
     return events
 
 
+def replay_validate(ctx, scripts, tags, sig_fn, name):
+    """R + T only (no model run): the scripts go through the real node and the traces are validated with the clauses of `tags`"""
+    inp, tr = ctx.scratch + "/scripts_%s.ndjson" % name, ctx.scratch + "/op_trace_%s.ndjson" % name
+    ctx.write_ndjson(inp, scripts)
+    ctx.driver("op-run", ["-in", inp, "-out", tr], timeout=1800)
+    events = ctx.read_ndjson(tr)
+    is_new = lambda e: e.get("ev") == "new"
+    fails, res, drifts, ntr = validate_trace(ctx, "OpTraceMC", tr_cfg(tags), "op_trace.ndjson", events, is_new, timeout=3000, files={"OpTraceMC.tla": tr_module(tags)})
+    for f in fails:
+        ctx.violation(sig_fn(f), {"cfg": f["header"]["cfg"], "in": [e.get("msg") for e in f["events"][:f["bad_index"] + 1] if e["ev"] == "in"]},
+                      expected="PFail(cfg, ins, outs) = \"\" (Ops.tla, clauses %s)" % tags, observed=f["events"][:f["bad_index"] + 1][-3:], note=f["why"])
+    ctx.cover(states=res.distinct if res else 0, transitions=res.generated if res else 0, traces=ntr, evaluations=len(events), distinct=ntr)
+    return ntr
+
+
 def control_trace(tag):
     """A hand-written trace that violates the clause of `tag`; the trace spec must reject it (binding demonstrated)."""
     aggs = [{"k": "count", "c": 3}, {"k": "sum", "c": 3}]
@@ -259,16 +274,19 @@ def basic_random_scripts(rng, n, maxlen, late):
 
 EXT_BODY = r'''
 JTable == << <<IntV(1), StrV("a")>>, <<IntV(1), StrV("b")>>, <<NullV, StrV("c")>>, <<IntV(2), StrV("a")>> >>
+JTable2 == << <<IntV(1), StrV("a")>>, <<IntV(1), StrV("a")>>, <<IntV(1), StrV("b")>>, <<IntV(2), StrV("a")>> >>     \* the joined side emits +a -a +b for key 1
 ExtCfgs == {[op |-> "orderby", keys |-> <<3>>, dirs |-> <<1>>, limit |-> -1], [op |-> "orderby", keys |-> <<3, 2>>, dirs |-> <<-1, 1>>, limit |-> 2],
             [op |-> "orderby", keys |-> <<>>, dirs |-> <<>>, limit |-> 1], [op |-> "orderby", keys |-> <<2>>, dirs |-> <<-1>>, limit |-> 3],
             [op |-> "limit", n |-> 0], [op |-> "limit", n |-> 1], [op |-> "limit", n |-> 2],
-            [op |-> "lookup", col |-> 3, jcol |-> 1, table |-> JTable],
+            [op |-> "lookup", col |-> 3, jcol |-> 1, table |-> JTable, tflags |-> <<FALSE, FALSE, FALSE, FALSE>>],
+
             [op |-> "unnest", col |-> 3]}
 ExtUniverse(c) == IF c.op = "unnest"
                   THEN {Rec(<<TimeV(1), StrV("a"), ListV(l)>>, r, t) : l \in {<<>>, <<IntV(1)>>, <<IntV(1), IntV(1)>>, <<IntV(2), NullV>>}, r \in BOOLEAN, t \in 0..2} \cup {Wm(1), Wm(2)}
                   ELSE {Rec(<<TimeV(1), StrV(nm), v>>, r, t) : nm \in {"a", "b"}, v \in {IntV(1), IntV(2), NullV}, r \in BOOLEAN, t \in 0..2} \cup {Wm(1), Wm(2)}
 '''
 JTABLE = [[V_int(1), V_str("a")], [V_int(1), V_str("b")], [NULL, V_str("c")], [V_int(2), V_str("a")]]
+JTABLE2 = [[V_int(1), V_str("a")], [V_int(1), V_str("a")], [V_int(1), V_str("b")], [V_int(2), V_str("a")]]
 
 
 def ext_random_scripts(rng, n, maxlen, late):
@@ -283,7 +301,7 @@ def ext_random_scripts(rng, n, maxlen, late):
         elif kind == "limit":
             cfg = {"op": "limit", "n": rng.choice([0, 1, 2, 3, 7])}
         elif kind == "lookup":
-            cfg = {"op": "lookup", "col": 3, "jcol": 1, "table": JTABLE}
+            cfg = {"op": "lookup", "col": 3, "jcol": 1, "table": JTABLE, "tflags": [False] * 4}
         else:
             cfg = {"op": "unnest", "col": 3}
         out.append({"cfg": cfg, "in": random_script(rng, lrows if kind == "unnest" else rows, maxlen, [0, 1, 2, 3, 4], max_wm=4, late=late)})
@@ -296,7 +314,25 @@ def run_ext(ctx, prop):
     rng = random.Random(ctx.seed * 7919 + 11)
     late = prop != "C18"
     randoms = ext_random_scripts(rng, 1500 if thorough else 300, 50 if thorough else 25, late)
-    run_ops(ctx, prop, "OpMC_ext", EXT_BODY, "ExtCfgs", "ExtUniverse", 4 if thorough else 3, randoms, sig_basic, [prop], sample=0 if thorough else 6000)
+    if prop == "C15":
+        # a joined side that retracts (a subquery with a trigger): the model of this configuration violates "never retract an absent row" (recorded finding),
+        # so it is not part of the model-checked configurations; the real node is still run on directed scripts and judged by the same Layer P
+        cfg2 = {"op": "lookup", "col": 3, "jcol": 1, "table": JTABLE2, "tflags": [False, True, False, False]}
+        r1, r2 = [V_time(1), V_str("a"), V_int(1)], [V_time(1), V_str("b"), V_int(2)]
+        rec = lambda row, r=False: {"m": "rec", "v": row, "r": r, "t": 0}
+        directed = [{"cfg": cfg2, "in": s_} for s_ in ([rec(r1)], [rec(r1), rec(r1, True)], [rec(r1), rec(r2), rec(r1, True)], [rec(r2), rec(r2, True)])]
+        randoms += directed
+        # the consolidated result of these runs is judged on its own as well (the recorded finding above is a transient retraction, the end result is right)
+        replay_validate(ctx, directed, ["C15F"], sig_ext, "lookup_final")
+    run_ops(ctx, prop, "OpMC_ext", EXT_BODY, "ExtCfgs", "ExtUniverse", 4 if thorough else 3, randoms, sig_ext, [prop], sample=0 if thorough else 6000)
+
+
+def sig_ext(f):
+    cfg = f["header"]["cfg"]
+    sig = {"site": "nodes." + cfg["op"], "why": f["why"].split(":")[0], "reason": f["why"].split(":", 1)[-1].strip()[:60]}
+    if cfg["op"] == "lookup":
+        sig["joined_side_retracts"] = any(cfg.get("tflags", []))
+    return sig
 
 
 def sig_basic(f):
